@@ -8,6 +8,7 @@
 (d) memory quota: grow chains with wrapped payloads recording argument
     sizes; repetition must refuse before allocating.
 """
+import math
 import sys
 import tracemalloc
 
@@ -359,7 +360,8 @@ def check_pipeline(run, case):
 _Q = {}
 # the quota is about data values; lazy iterators, lambdas and contexts have
 # a small fixed own size that says nothing about the data they will produce
-DATA = (str, bytes, list, tuple, dict, set, frozenset, yutils.FrozenDict)
+DATA = (str, bytes, list, tuple, dict, set, frozenset, yutils.FrozenDict,
+        int)
 
 
 def _quota_ctx():
@@ -417,6 +419,19 @@ QUOTA_TEMPLATES = {
     'concat-dicts': ('dict(range($m).select([$, $])) + {x => 1}',
                      lambda c: 64 + 36 * c['m']),
     'str': ('str($s * $n)', lambda c: _str_size(len(c['s']) * max(c['n'], 0))),
+    # integers are data too: they grow without bound
+    'int-pow': ('pow(2, $m * 64)',
+                lambda c: sys.getsizeof(1 << (c['m'] * 64))),
+    'int-shift': ('shiftBitsLeft(1, $m * 64) + 1',
+                  lambda c: sys.getsizeof(1 << (c['m'] * 64))),
+    'int-squaring': ('range($d).aggregate($1 * $1, 3)',
+                     lambda c: sys.getsizeof(3 ** (2 ** c['d']))),
+    'int-product': ('range(1, $m + 2).aggregate($1 * $2)',
+                    lambda c: sys.getsizeof(math.factorial(c['m'] + 1))),
+    'int-argument': ('isInteger($big) and $big > 0',
+                     lambda c: sys.getsizeof(1 << (c['m'] * 64))),
+    'int-in-list': ('[$big, 1].len()',
+                    lambda c: sys.getsizeof(1 << (c['m'] * 64))),
     # a literal constant larger than the quota handed straight to a function
     'literal-len': ("len('{LIT}')", lambda c: _str_size(c['m'] * 4)),
     'literal-isString': ("isString('{LIT}')", lambda c: _str_size(c['m'] * 4)),
@@ -445,6 +460,7 @@ def check_quota(run, case):
             ctx['$' + k] = case[k]
     ctx['$l'] = c['l']
     ctx['$t'] = tuple(c['l'])
+    ctx['$big'] = 1 << (case.get('m', 0) * 64)
     del _Q['seen'][:]
     eng = _engine(10 ** 6, q, convertInputData=False)
     run.guard(case)
